@@ -842,6 +842,51 @@ func histSig(h HistCase) string {
 }
 
 // ---------------------------------------------------------------------------
+// call histories: several lookups on one cache
+
+type callLookup struct {
+	ctx int
+	md  []byte
+}
+
+var callLookups = []callLookup{{1, []byte{0x07, 0x01}}, {1, []byte{0x09, 0x09}}, {1, nil}, {2, []byte{0x0a}}, {1, []byte{0x07, 0x01}}}
+
+type callFail struct{ sig, msg string }
+
+func callHistory(cs Case) (all []Obs, pristine *model.ProviderInfo, fails []callFail) {
+	info := buildInfo(cs)
+	pristine = buildInfo(cs) // a second, untouched copy of the same record
+	before, _ := json.Marshal(info)
+	pc, err := pcache.New(pcache.WithSource(&recSource{info: info}), pcache.WithRefreshInterval(0))
+	if err != nil {
+		panic(err)
+	}
+	for k, lk := range callLookups {
+		obs := func() (o Obs) {
+			defer func() {
+				if r := recover(); r != nil {
+					o = Obs{Kind: "panic", Detail: fmt.Sprint(r)}
+				}
+			}()
+			return observe(pc.GetResults(context.Background(), pcdrv.Peer(0), ctxName(lk.ctx), lk.md))
+		}()
+		all = append(all, obs)
+		want := specResults(pristine, pcdrv.Peer(0), ctxName(lk.ctx), lk.md)
+		if obs.Kind != "ok" || !itemsEqual(want, obs.Items) {
+			w, _ := json.Marshal(want)
+			g, _ := json.Marshal(obs)
+			fails = append(fails, callFail{fmt.Sprintf("calls:lookup-depends-on-earlier-lookups:%s:lookup#%d", caseSig("", cs), k),
+				fmt.Sprintf("lookup #%d (context c%d, metadata %x) on a cache that had answered %d earlier lookups with other arguments returned %s; the expansion of the record for these arguments is %s", k, lk.ctx, lk.md, k, g, w)})
+		}
+	}
+	if after, _ := json.Marshal(info); string(after) != string(before) {
+		fails = append(fails, callFail{"calls:source-record-modified:" + caseSig("", cs),
+			fmt.Sprintf("the record the source handed to the cache was modified by GetResults: %s became %s", before, after)})
+	}
+	return all, pristine, fails
+}
+
+// ---------------------------------------------------------------------------
 
 type failRec struct {
 	idx   int
@@ -881,6 +926,27 @@ func main() {
 	}
 
 	if c.Replay != "" {
+		var cr struct {
+			Calls *Case `json:"calls"`
+		}
+		if err := c.LoadReplay(&cr); err == nil && cr.Calls != nil {
+			obs, pristine, fails := callHistory(*cr.Calls)
+			b, _ := json.Marshal(cr.Calls)
+			fmt.Printf("replay: call history on record %s\n", b)
+			for k, o := range obs {
+				ob, _ := json.Marshal(o)
+				fmt.Printf("  lookup #%d (context c%d, metadata %x): %s\n", k, callLookups[k].ctx, callLookups[k].md, ob)
+				c.Eval()
+				if representable(o, pristine) {
+					c.Case("getresults", fmt.Sprintf("GRC %s 0 %s %s %s", coqRecord(pristine), coqBytes(ctxName(callLookups[k].ctx)), coqMd(callLookups[k].md), coqObs(o)), map[string]interface{}{"calls": cr.Calls, "lookup": k})
+				}
+			}
+			for _, f := range fails {
+				fmt.Println("ORACLE-FAIL:", f.msg)
+				c.Fail(f.sig, f.msg, map[string]interface{}{"calls": cr.Calls})
+			}
+			return
+		}
 		var hr struct {
 			History *HistCase `json:"history"`
 		}
@@ -1216,6 +1282,42 @@ func main() {
 		c.Fail(histSig(h), msg, map[string]interface{}{"history": h})
 	}
 
+	// ---- stream 7: call histories.  Several lookups on ONE cache for the same provider with
+	// different looked-up metadata and context IDs; every answer is compared with the
+	// expansion of the record for that lookup's arguments (a lookup must leave nothing
+	// behind), and the source's record must be as it was before the lookups.
+	callFails := 0
+	callKinds := map[string]int{}
+	for si, st := range sets {
+		for variant := 0; variant < 2; variant++ {
+			if variant == 1 && si%3 != 0 {
+				continue
+			}
+			cs := Case{Rec: Rec{Chain: st}, Ctx: 1, Md: 2, Path: "preload"}
+			if variant == 1 {
+				cs = Case{Rec: Rec{Chain: chainRep, Ctxs: []CtxSet{{ID: 1, Override: si%2 == 0, Set: st}, {ID: 2, Override: false, Set: Set{Provs: []int{0, 1}, Mds: []int{mdNil}}}}}, Ctx: 1, Md: 2, Path: "preload"}
+			}
+			obs, pristine, fails := callHistory(cs)
+			for k, o := range obs {
+				c.Eval()
+				c.Count("call-history-lookups")
+				if representable(o, pristine) {
+					c.Case("getresults", fmt.Sprintf("GRC %s 0 %s %s %s", coqRecord(pristine), coqBytes(ctxName(callLookups[k].ctx)), coqMd(callLookups[k].md), coqObs(o)),
+						map[string]interface{}{"calls": cs, "lookup": k})
+				}
+			}
+			for _, f := range fails {
+				callFails++
+				kind := strings.SplitN(f.sig, ":", 3)[1]
+				if callKinds[kind] < 1 {
+					callKinds[kind]++
+					c.Fail(f.sig, f.msg, map[string]interface{}{"calls": cs})
+				}
+			}
+		}
+	}
+	c.CountN("call-history-failures", callFails)
+
 	// ---- failures: one shrunk representative per class first (the driver prints the
 	// first five), then the null record, then representatives that need the contextual
 	// loop, then the remaining hand-written bodies
@@ -1257,5 +1359,5 @@ func main() {
 	}
 
 	c.Res.Exhaustive = true
-	c.Res.Rule = fmt.Sprintf("records with <=2 entries per list: providers in {the looked-up provider, another}, metadata list of length {0, n-1, n, n+1} over {nil, empty, = looked-up, different}; one list exhaustive (%d sets) x looked-up metadata {nil, empty, non-empty} with the other list fixed (chain-level; contextual x override) — all written for Coq; the full product chain x contextual x override x looked-up metadata (%d records) through the direct oracle with a seeded sample written for Coq; seeded larger records (<=6 entries per list, 0..3 contextual sets incl. duplicate / non-matching context IDs) over four delivery paths (FetchAll at preload, Fetch on a miss, each also as JSON through pcache's HTTP source); hand-written JSON bodies; unknown provider; two-step histories for one provider (v1 with extended providers cached and looked up, then a strictly newer v2 without / with other ones reported and refreshed, or both delivered to one miss by two sources): GetResults must be the expansion of v2 alone. Non-trivial = the record has at least one extended provider entry", len(sets), total)
+	c.Res.Rule = fmt.Sprintf("records with <=2 entries per list: providers in {the looked-up provider, another}, metadata list of length {0, n-1, n, n+1} over {nil, empty, = looked-up, different}; one list exhaustive (%d sets) x looked-up metadata {nil, empty, non-empty} with the other list fixed (chain-level; contextual x override) — all written for Coq; the full product chain x contextual x override x looked-up metadata (%d records) through the direct oracle with a seeded sample written for Coq; seeded larger records (<=6 entries per list, 0..3 contextual sets incl. duplicate / non-matching context IDs) over four delivery paths (FetchAll at preload, Fetch on a miss, each also as JSON through pcache's HTTP source); hand-written JSON bodies; unknown provider; two-step histories for one provider (v1 with extended providers cached and looked up, then a strictly newer v2 without / with other ones reported and refreshed, or both delivered to one miss by two sources): GetResults must be the expansion of v2 alone; call histories (5 lookups with different metadata / context IDs on one cache per record, each compared with the expansion for its own arguments, the source's record compared before/after). Non-trivial = the record has at least one extended provider entry", len(sets), total)
 }
